@@ -2,7 +2,7 @@
 # MANIFEST.setup_cmd: build the framework offline from files on disk (run in /verif)
 set -e
 cd "$(dirname "$0")/.."
-export PYTHONPATH="/verif/harness:${TTCONV_REPO:-/repo}/src/main/python" PYTHONHASHSEED=0 PYTHONDONTWRITEBYTECODE=1
+export PYTHONPATH="$(pwd -P)/harness:${TTCONV_REPO:-/repo}/src/main/python" PYTHONHASHSEED=0 PYTHONDONTWRITEBYTECODE=1
 mkdir -p coq/Gen evidence replay
 /venv/bin/python harness/gen_tables.py
 sh tools/mkproject.sh
